@@ -62,10 +62,10 @@ func (m *refCursor) peekErr(i int) error {
 }
 
 type c12Case struct {
-	Impl   string `json:"impl"`   // input | lexer
-	Ctor   string `json:"ctor"`   // string | bytes-tight | bytes-spare | reader | bytesreader | failreader
-	Data   fw.B   `json:"data"`   // bytes the reader delivers / the slice holds
-	FailAt int    `json:"failAt"` // for failreader
+	Impl   string `json:"impl"`          // input | lexer
+	Ctor   string `json:"ctor"`          // string | bytes-tight | bytes-spare | reader | bytesreader | failreader
+	Data   fw.B   `json:"data"`          // bytes the reader delivers / the slice holds
+	FailAt int    `json:"failAt"`        // for failreader
 	Std    string `json:"std,omitempty"` // for stdreader
 	Ops    []string
 }
